@@ -12,6 +12,12 @@ func Read(fd int, p []byte) (int, error) {
 	if e, ok := vshim.Check("read", fd); ok {
 		return -1, e
 	}
+	if n, ok := vshim.Shorten(true, fd, len(p)); ok {
+		if n == 0 {
+			return -1, unix.EAGAIN
+		}
+		p = p[:n]
+	}
 	return unix.Read(fd, p)
 }
 
@@ -19,14 +25,46 @@ func Write(fd int, p []byte) (int, error) {
 	if e, ok := vshim.Check("write", fd); ok {
 		return -1, e
 	}
-	return unix.Write(fd, p)
+	if n, ok := vshim.Shorten(false, fd, len(p)); ok {
+		if n == 0 {
+			return -1, unix.EAGAIN
+		}
+		p = p[:n]
+	}
+	n, err := unix.Write(fd, p)
+	vshim.Took(fd, n)
+	return n, err
 }
 
 func Writev(fd int, iov [][]byte) (int, error) {
 	if e, ok := vshim.Check("writev", fd); ok {
 		return -1, e
 	}
-	return unix.Writev(fd, iov)
+	total := 0
+	for _, b := range iov {
+		total += len(b)
+	}
+	if m, ok := vshim.Shorten(false, fd, total); ok {
+		if m == 0 {
+			return -1, unix.EAGAIN
+		}
+		// hand the kernel a prefix of m bytes (a real short writev)
+		var cut [][]byte
+		for _, b := range iov {
+			if m <= 0 {
+				break
+			}
+			if len(b) > m {
+				b = b[:m]
+			}
+			cut = append(cut, b)
+			m -= len(b)
+		}
+		iov = cut
+	}
+	n, err := unix.Writev(fd, iov)
+	vshim.Took(fd, n)
+	return n, err
 }
 
 // Close performs the close and then reports the injected failure (Linux releases
